@@ -60,7 +60,15 @@ def run_fixed(ctx):
               for i in range(n_model)]
     sig = dict(method=method, n_model=n_model, what='fixed')
     wit = lambda **k: dict(data=data, models=[m.rdm for m in models], method=method, **k)  # noqa: E731
-    ok, res = ctx.guarded('fixed_vs_scipy', sig, eval_fixed, models, RDMs(data.copy()), method=method, data=wit)
+    data_obj = RDMs(data.copy())
+    if n_rdm % 3 == 0:
+        # the data object is itself a selection (with repeats) from a larger stack: its rows are its RDMs all the same
+        pool = np.concatenate([data, data[:2] * 1.5])
+        idx = np.concatenate([np.arange(n_rdm - 2), [n_rdm + 1, n_rdm + 1]])
+        data = pool[idx]
+        data_obj = RDMs(pool.copy()).subsample('index', [int(i) for i in idx])
+        sig['derived_data'] = True
+    ok, res = ctx.guarded('fixed_vs_scipy', sig, eval_fixed, models, data_obj, method=method, data=wit)
     if not ok:
         return
     ctx.case('fixed_vs_scipy', sig, sample={'n_model': n_model, 'n_rdm': n_rdm, 'method': method})
